@@ -93,6 +93,11 @@ def do_run(spec, tier="quick"):
     if out.strip():
         raise RuntimeError("/repo is not clean: " + out)
     result = {"patch": "seeded/%s/patch.diff" % pid, "tier": tier, "checks": {}}
+    # the evidence files under /verif/evidence must describe runs on the unchanged tree: keep them aside
+    ev, bak = os.path.join(ROOT, "evidence"), os.path.join(ROOT, ".work", "evidence_backup")
+    if os.path.isdir(bak):
+        shutil.rmtree(bak)
+    shutil.copytree(ev, bak)
     try:
         rc, out = sh(["git", "-C", "/repo", "apply", patch])
         if rc != 0:
@@ -115,6 +120,8 @@ def do_run(spec, tier="quick"):
             print(pid, "->", p, "exit", rc, "violations", len(viol), "(%d without input)" % result["checks"][p]["no_failing_input"])
     finally:
         sh(["git", "-C", "/repo", "checkout", "--", "."])
+        shutil.rmtree(ev)
+        shutil.copytree(bak, ev)
     rc, out = sh(["git", "-C", "/repo", "status", "--porcelain"])
     assert not out.strip(), out
     json.dump(result, open(os.path.join(dst, "result.json"), "w"), indent=1)
